@@ -17,6 +17,12 @@ Definition sdel (s : store) (k : N) : store := fun x => if N.eqb x k then None e
 Definition copy_all (src : list (N * N)) (order : list (N * N)) (dst : store) : store :=
   fold_left (fun d kv => sset d (fst kv) (snd kv)) order dst.
 Definition delete_all (order : list N) (m : store) : store := fold_left sdel order m.
+(* `if _, ok := g[key]; !ok { dst[key] = value }` for every entry, where the looked-up map g is dst itself
+   (guard_is_dst) or another map that the loop does not write *)
+Definition copy_missing_step (guard_is_dst : bool) (g : store) (d : store) (kv : N * N) : store :=
+  match (if guard_is_dst then d else g) (fst kv) with None => sset d (fst kv) (snd kv) | Some _ => d end.
+Definition copy_missing (guard_is_dst : bool) (g : store) (order : list (N * N)) (dst : store) : store :=
+  fold_left (copy_missing_step guard_is_dst g) order dst.
 
 (* "collect the keys, sort them, then walk the sorted slice" *)
 Fixpoint insert (x : N) (l : list N) : list N :=
